@@ -188,11 +188,15 @@ def _resample_fitswcs(fitswcs, factor, offset=0):
     # are reproduced by scaling the plate scale, scaling the columns of the PC matrix by the
     # factors relative to their rows (unity unless coupled axes are resampled differently)
     # and moving the reference pixel.
-    pc = fitswcs.wcs.get_pc()
-    resampled_pc = pc * factor[np.newaxis, :] / factor[:, np.newaxis]
-    if not np.allclose(resampled_pc, pc, rtol=1e-14, atol=0):
-        fitswcs.wcs.pc = resampled_pc
-    fitswcs.wcs.cdelt = fitswcs.wcs.cdelt * factor
+    if fitswcs.wcs.has_cd():
+        # With a CD matrix there is no separate plate scale: scale its columns.
+        fitswcs.wcs.cd = fitswcs.wcs.cd * factor[np.newaxis, :]
+    else:
+        pc = fitswcs.wcs.get_pc()
+        resampled_pc = pc * factor[np.newaxis, :] / factor[:, np.newaxis]
+        if not np.allclose(resampled_pc, pc, rtol=1e-14, atol=0):
+            fitswcs.wcs.pc = resampled_pc
+        fitswcs.wcs.cdelt = fitswcs.wcs.cdelt * factor
     fitswcs.wcs.crpix = (fitswcs.wcs.crpix + factor - 1 - offset) / factor
     fitswcs._naxis = list(np.round(np.array(fitswcs._naxis) / factor).astype(int))
     return fitswcs
